@@ -817,6 +817,41 @@ def _variants(
             methods=[("==", "e"), ("<=", "e")],
         )
         emit("x_neg", "extend", ["extend", {"ops": {n1: "-%s" % A}}], ext_schema({n1: (st.typ(A), tj(A))}), methods=[("-", "e")])
+    if A is not None:
+        # right-nested / left-nested / mixed applications of non-associative inline operators
+        T = K if K is not None else "1"
+        nt3 = "float" if (nt == "float" or K is None) else "int"
+        emit(
+            "x_nest_right",
+            "extend",
+            ["extend", {"ops": {n1: "%s - (%s - %s)" % (A, B, T), n2: "%s - (%s - (%s - 1))" % (A, B, T)}}],
+            ext_schema({n1: (nt3, tj(A, B, K)), n2: (nt3, tj(A, B, K))}),
+            reduced=True,
+            methods=[("-", "e")],
+        )
+        emit(
+            "x_nest_left_mixed",
+            "extend",
+            ["extend", {"ops": {n1: "(%s - %s) - %s" % (A, B, T), n2: "%s - (%s * (%s - %s))" % (A, B, A, T), n3: "%s * (%s - %s)" % (A, B, T)}}],
+            ext_schema({n1: (nt3, tj(A, B, K)), n2: (nt3, tj(A, B, K)), n3: (nt3, tj(A, B, K))}),
+            methods=[("-", "e"), ("*", "e")],
+        )
+        if st.typ(A) == "float" and st.typ(B) == "float":  # (an int operand would make `B / 2` the integer-division convention)
+            emit(
+                "x_nest_div",
+                "extend",
+                ["extend", {"ops": {n1: "%s / (%s / 2)" % (A, B), n2: "(%s / %s) / 2" % (A, B)}}],
+                ext_schema({n1: ("float", tj(A, B)), n2: ("float", tj(A, B))}),
+                methods=[("/", "e")],
+            )
+        if st.typ(A) == "float":
+            emit(
+                "x_nest_pow",
+                "extend",
+                ["extend", {"ops": {n1: "2 ** (%s ** 2)" % A, n2: "(%s ** 2) ** 2" % A}}],
+                ext_schema({n1: ("float", tj(A)), n2: ("float", tj(A))}),
+                methods=[("**", "e")],
+            )
     keyish = {"g", "k", "k2"}
     over = [c for c in cols if c not in keyish]
     if over:
@@ -1111,6 +1146,15 @@ def _variants(
         )
         if A != B:
             emit("s_eqcols", "select_rows", ["select_rows", {"expr": "%s == %s" % (A, B)}], st.schema, rows_cols=[A, B], methods=[("==", "e")])
+    if A is not None:
+        emit(
+            "s_nest",
+            "select_rows",
+            ["select_rows", {"expr": "(%s - (%s - 1)) > 0" % (A, B)}],
+            st.schema,
+            rows_cols=[A, B],
+            methods=[("-", "e"), (">", "e")],
+        )
     if G is not None:
         emit("s_streq", "select_rows", ["select_rows", {"expr": "%s == 'a'" % G}], st.schema, rows_cols=[G], reduced=True, methods=[("==", "e")])
 
